@@ -273,11 +273,16 @@ MUTANTS = [
       "dropped filter: every self-intervened node becomes a district of its own: an extra factor P(x)"),
     M("i18", "idstar", IDS, "        district: get_events_of_district(graph, district, event)\n", "        district: get_events_of_district(subgraph, district, event)\n", ["C07"],
       "wrong graph (second site of i08): the Markov pillow is taken in the graph without self-intervened nodes"),
-    M("i19", "idstar", IDS, "    return cast(Intervention, -node.get_base())\n", "    return cast(Intervention, +node.get_base())\n", ["C07"],
-      "wrong polarity: an unobserved district node gets the value x', which the summation over it does not bind"),
-    M("i20", "idstar", IDS, "    if node in event:\n        return event[node]\n", "    if node.get_base() in event:\n        return event[node.get_base()]\n", ["C07"],
-      "base instead of node: the value of a COUNTERFACTUAL event variable is looked up under its base name and defaults to the unstarred value: needs "
-      "line 6, a counterfactual key and a starred value (or a factual and a counterfactual copy with different values)"),
+    M("i19", "idstar", IDS, "    return cast(Intervention, -node.get_base())\n", "    return cast(Intervention, +node.get_base())\n", OUT,
+      "wrong polarity: an unobserved district node gets the value x'. REVISED after round 1 (first guess: breaks C07): an estimand of y0 names variables, not values, "
+      "and line 6 of the recursive call writes every value as an UNSTARRED subscript anyway (open finding F10/M1), so the polarity of a district value reaches "
+      "the output only through lines 2 / 8 of the recursive call, i.e. when a copy of the summed variable is also a subscript of the same district "
+      "(F10/M2, M3a inputs). Measured: 5 of 2 028 quick inputs change (an estimand becomes Zero), and on all 5 the UNCHANGED id_star already returns a wrong "
+      "estimand (listed classes value/line6/M2 and M3a): wrong -> wrong, no input found on which the mutant is wrong and the unchanged code right"),
+    M("i20", "idstar", IDS, "    if node in event:\n        return event[node]\n", "    if node.get_base() in event:\n        return event[node.get_base()]\n", EQ,
+      "base instead of node: the value of a COUNTERFACTUAL event variable is looked up under its base name and defaults to the unstarred value. REVISED after "
+      "round 1 (first guess: breaks C07): as for i19 the polarity of a district value is invisible in the estimand on the current tree (F10/M1 un-stars it at the "
+      "next line 6, line 9 prints no values); no generated input (12 000 with the extended search) distinguishes the mutant from the model of the unchanged code"),
     M("i21", "idstar", IDS, "        if intervention.name == ev.name and intervention.star != ev.star\n", "        if intervention.name == ev.name and intervention.star == ev.star\n", ["C07"],
       "negated comparison: agreement is a conflict, real conflicts pass"),
     M("i22", "idstar", IDS, "    return set(event.values()) | get_cf_interventions(event)\n", "    return set(event.values())\n", ["C07"],
@@ -312,8 +317,10 @@ MUTANTS = [
       "stale variable: rule 2 is tested for the ORIGINAL outcomes, which are no nodes of the counterfactual graph once renamed (KeyError from are_d_separated)"),
     M("d09", "idc", IDC, "                    outcome.intervene(new_conditions[condition])\n", "                    outcome.intervene(condition)\n", ["C08"],
       "fix 8a76512 reverted: the exchanged condition enters the subscript as the unstarred value whatever its observed value"),
-    M("d10", "idc", IDC, "                    if condition in cf_graph.ancestors_inclusive(outcome)\n", "                    if True\n", OUT,
-      "dropped condition: every outcome gets the subscript, also those the condition is no ancestor of: Y_z = Y there, the estimand differs only syntactically"),
+    M("d10", "idc", IDC, "                    if condition in cf_graph.ancestors_inclusive(outcome)\n", "                    if True\n", ["C08"],
+      "dropped condition: every outcome gets the subscript, also those the condition is no ancestor of. REVISED after round 1 (first guess: Y_z = Y there, only a "
+      "syntactic difference): an outcome that already carries the OTHER value of the condition's variable in its subscript (Y_{z'} with the factual condition "
+      "Z = z, which is no ancestor of Y_{z'}) makes CounterfactualVariable.intervene raise ValueError: a crash on an in-domain query"),
     M("d11", "idc", IDC, "                    if condition in cf_graph.ancestors_inclusive(outcome)\n", "                    if condition in cf_graph.descendants_inclusive(outcome)\n", ["C08"],
       "wrong closure: a condition that is a CAUSE of the outcome is dropped without becoming a subscript: P(y) for P(y | x) on X -> Y"),
     M("d12", "idc", IDC, "                graph, new_outcomes, new_conditions, _number_recursions=_number_recursions + 1\n", "                graph, outcomes, new_conditions, _number_recursions=_number_recursions + 1\n", ["C08"],
